@@ -253,7 +253,9 @@ def families(prop, tier):
         conn = [{}, {'rcpt': [250, 450, 550]}, {'rcpt': [550, 250, 450]}, {'rcpt': [450, 450, 450]}, {'rcpt': [550, 550, 550]},
                 {'eod': 450}, {'eod': 550}, {'mail': 450}, {'mail': 550}, {'data': 554}, {'data': 451}, {'banner': 421}, {'banner': 554},
                 {'eod': 'disconnect'}, {'rcpt': [250, 'disconnect']}, {'ehlo': 'malformed'}, {'eod': 'stall'}, {'mail': 'stall'},
-                {'eod': [250, 450, 550]}, {'eod': [450, 250, 250]}, {'eod': [550, 450, 250]}, {'rcpt': [250, 550, 250], 'eod': [450, 250, 550]}]
+                {'eod': [250, 450, 550]}, {'eod': [450, 250, 250]}, {'eod': [550, 450, 250]}, {'rcpt': [250, 550, 250], 'eod': [450, 250, 550]},
+                # recipients accepted with another 2xx code than 250 (251 "will forward", 252)
+                {'rcpt': [251, 250, 252], 'eod': [250, 552, 450]}, {'rcpt': [252, 251, 250], 'eod': [550, 250, 250]}, {'rcpt': [251, 450, 250]}]
         for kind in ('smtp', 'lmtp'):
             for nr in ((2, 3) if q else (1, 2, 3)):
                 for bo in ([0, None], [None], [4, 0, None]):
